@@ -736,6 +736,11 @@ def _grid_skeleton(nslots, kinds):
             pts.append(dict(k1=ks[0], k2=ks[1], k3=ks[2], n1=rnd.choice("ab"), n2=rnd.choice("ab") if nslots > 1 else "a", n3=rnd.choice("ab") if nslots > 2 else "a",
                             i1=rnd.choice("ab"), l1=rnd.randint(1, 4), x1=rnd.randint(0, 2), g1=rnd.randint(0, 1) if nslots > 1 else 0, x2=rnd.randint(0, 2) if nslots > 1 else 0,
                             g2=rnd.randint(0, 1) if nslots > 2 else 0, x3=rnd.randint(0, 1) if nslots > 2 else 0, doc=tiered("d", rnd.choice(["d", "d\n", "d "]))))
+        if nslots >= 2 and "adef_deco" in kinds and "adef" in kinds:
+            # process-level state: a decorated coroutine visited first, then plain coroutines (in the same module and in the next one);
+            # CrossHair's container proxies do not reproduce in-place mutation of a shared set, so this is checked natively here
+            for ks in (["adef_deco", "adef", "assign"], ["adef", "adef", "assign"], ["def", "adef", "assign"]):
+                pts.append(dict(k1=ks[0], k2=ks[1], k3=ks[2], n1="a", n2="b", n3="a", i1="b", l1=2, x1=0, g1=0, x2=0, g2=0, x3=0, doc="d"))
         return pts
     return grid
 
